@@ -46,6 +46,70 @@ theorem i2c_roundtrip_v1 (e : I2CElems) (hv : e.version = 1) (img : List UInt8) 
                                         valid := true, called := true } :=
   CfVerif.C14.i2c_roundtrip_v1_aux e hv img h m hm
 
+/-- `write_data` produces an image for EVERY representable content: version 0 or 1, channel and speed bytes, any
+two float32 trims, any 40-bit address. -/
+theorem i2c_image_total (e : I2CElems) (hv : e.version = 0 ∨ e.version = 1)
+    (hc : 0 ≤ e.channel ∧ e.channel < 256) (hs : 0 ≤ e.speed ∧ e.speed < 256) (hp : e.pitch < 2 ^ 32) (hr : e.roll < 2 ^ 32)
+    (ha : e.version = 1 → ∃ a : Nat, e.address = some (a : Int) ∧ a < 2 ^ 40) :
+    ∃ img, i2cImage e = .ok img ∧ img.length = (if e.version = 0 then 16 else 21) :=
+  i2c_image_total_aux e hv hc hs hp hr ha
+
+/-- The parser reads the EEPROM exactly as the firmware lays it out (positional decoder `i2cDecode` of Spec/C14),
+for every memory content. -/
+theorem i2c_update_is_layout (m : Mem) (hm : 21 ≤ m.length) : i2cUpdate m = .ok (i2cDecode m) :=
+  i2cUpdate_eq_decode m hm
+
+/-- Validity follows the checksum: for EVERY memory content the image is reported valid exactly when the token is
+present, the version is 0 or 1 and the stored checksum byte equals the sum modulo 256 of all bytes before it. -/
+theorem i2c_valid_iff_checksum (m : Mem) (hm : 21 ≤ m.length) :
+    ∃ r, i2cUpdate m = .ok r ∧
+      (r.valid = true ↔
+        m.take 4 = [0x30, 0x78, 0x42, 0x43] ∧
+          ((m.getD 4 0 = 0 ∧ byteSum (m.take 15) % 256 = (m.getD 15 0).toNat) ∨
+           (m.getD 4 0 = 1 ∧ byteSum (m.take 20) % 256 = (m.getD 20 0).toNat))) :=
+  ⟨_, i2cUpdate_eq_decode m hm, i2cDecode_valid m⟩
+
+/-- Any single corrupted byte of a valid image, other than the version byte, is detected: for every EEPROM content
+that parses as valid, every position `i ≠ 4` inside the image (16 bytes for version 0, 21 for version 1) and every
+different byte value, the corrupted memory is reported not valid.
+(Full statement, without `i ≠ 4`, is FALSE: see `i2c_version_corruption_iff` and the D13 witness below.) -/
+theorem i2c_single_corruption_detected_partial (m : Mem) (hm : 21 ≤ m.length) (r : I2CParsed)
+    (hr : i2cUpdate m = .ok r) (hvalid : r.valid = true)
+    (i : Nat) (b : UInt8) (hi : i ≠ 4)
+    (hrange : (m.getD 4 0 = 0 → i < 16) ∧ (m.getD 4 0 = 1 → i < 21)) (hlen : i < m.length) (hb : b ≠ m.getD i 0) :
+    ∃ r', i2cUpdate (m.set i b) = .ok r' ∧ r'.valid = false := by
+  rw [i2cUpdate_eq_decode m hm] at hr
+  cases hr
+  exact ⟨_, i2cUpdate_eq_decode _ (by simpa using hm), i2c_corruption_aux m i b hvalid hi hlen hrange hb⟩
+
+/-- The version byte: a corrupted version byte changes the range the checksum covers.  The corruption is reported
+valid exactly when the new version is 0/1 and the byte that now sits in the checksum position happens to equal the
+sum of the new range (D13, a weakness of the format itself, shared with the firmware). -/
+theorem i2c_version_corruption_iff (m : Mem) (hm : 21 ≤ m.length) (b : UInt8) :
+    ∃ r', i2cUpdate (m.set 4 b) = .ok r' ∧
+      (r'.valid = true ↔ m.take 4 = [0x30, 0x78, 0x42, 0x43] ∧
+        ((b = 0 ∧ byteSum ((m.set 4 b).take 15) % 256 = (m.getD 15 0).toNat) ∨
+         (b = 1 ∧ byteSum ((m.set 4 b).take 20) % 256 = (m.getD 20 0).toNat))) := by
+  refine ⟨_, i2cUpdate_eq_decode _ (by simpa using hm), ?_⟩
+  rw [i2cDecode_valid, take_set_of_le _ _ _ _ (by omega), getD_set_eq _ _ _ (by omega),
+    getD_set_ne _ _ _ _ (by omega), getD_set_ne _ _ _ _ (by omega)]
+
+/-- D13 witness: channel 80, speed 2, zero trims, address 0x7FE7E7E7E7.  Flipping the version byte 1 -> 0 yields a
+memory that is reported VALID (as a version-0 block) although one byte is corrupted. -/
+def d13Elems : I2CElems := { version := 1, channel := 80, speed := 2, pitch := 0, roll := 0, address := some 0x7FE7E7E7E7 }
+def d13Image : List UInt8 := [48, 120, 66, 67, 1, 80, 2, 0, 0, 0, 0, 0, 0, 0, 0, 127, 231, 231, 231, 231, 155]
+theorem d13_image : i2cImage d13Elems = .ok d13Image := by decide
+theorem i2c_single_corruption_detected_counterexample :
+    ¬ (∀ (i : Nat) (b : UInt8), i < d13Image.length → b ≠ d13Image.getD i 0 →
+        ∃ r', i2cUpdate (d13Image.set i b) = .ok r' ∧ r'.valid = false) := by
+  intro h
+  obtain ⟨r', h1, h2⟩ := h 4 0 (by decide) (by decide)
+  have : i2cUpdate (d13Image.set 4 0) = .ok { fields := some (0, 80, 2, 0, 0), address := none, valid := true, called := true } := by
+    decide
+  rw [this] at h1
+  cases h1
+  cases h2
+
 example : i2cImage { version := 1, channel := 80, speed := 2, pitch := 0, roll := 0x3f800000, address := some 0xE7E7E7E7E7 } =
     .ok [48, 120, 66, 67, 1, 80, 2, 0, 0, 0, 0, 0, 0, 128, 63, 231, 231, 231, 231, 231, 194] := by decide
 
